@@ -10,7 +10,8 @@ def check(ctx):
         "item used is the first one (Iterator::next on a fresh iterator, slice::first or index 0) ; R3 partial steps leave "
         "through `?` (no unwrap, no unchecked index) so no-op spans, missing scopes and empty tokens give None; R4 "
         "Span::root copies trace_id/span_id/sampled of a context into the root token (closing the loop context -> remote "
-        "child's parent).")
+        "child's parent); R5 the traceparent decoder never turns a parsed value into a None result (every id an "
+        "extracted context can carry survives encode -> decode).")
     ctx.not_decided = ("that the delivered child record carries that parent for every program point (composition of "
                        "C02/C11 rules); the W3C text round trip is C12.")
     facts = ctx.facts("E")
@@ -27,3 +28,6 @@ def check(ctx):
                 inv.check_borrow_site(fn, b, "R3", rid_user="R3", rid_nested="R3b")
     provrules.rule_token_items(ctx, facts, "R4", fields=("trace_id", "parent_id", "is_sampled"))
     provrules.rule_context_constructors(ctx, facts, "R4")
+    # the text round trip itself is C12; its one structural clause that C11 depends on: no value is refused by the decoder
+    from .. import codec
+    codec.rule_values_not_tested(ctx, facts, "R5")
